@@ -101,6 +101,7 @@ def _gen(rng, tree, name):
             "minimize": rng.choice(MINIMIZE[:5]),
             "seed": seed,
             "inplace": inplace,
+            "parallel": "threads" if rng.random() < 0.25 else False,
         }
     if name == "simulated_anneal":
         op = {
@@ -125,6 +126,7 @@ def _gen(rng, tree, name):
             "minimize": rng.choice(MINIMIZE[:5] + (None,)),
             "seed": seed,
             "inplace": inplace,
+            "parallel": "threads" if rng.random() < 0.25 else False,
         }
         if rng.random() < 0.3:
             op["target_size"] = max(1, tree.max_size() // rng.choice([2, 4]))
@@ -194,6 +196,7 @@ def _gen(rng, tree, name):
             "max_repeats": 2,
             "reconf_opts": {"subtree_size": 3, "maxiter": 2},
             "inplace": inplace,
+            "parallel": "threads" if rng.random() < 0.25 else False,
         }
     if name == "sort_contraction_indices":
         return {
@@ -241,11 +244,11 @@ def apply_op(tree, op, arrays=None):
         if name == "subtree_reconfigure":
             return tree.subtree_reconfigure(**_kw(op)), None, None
         if name == "subtree_reconfigure_forest":
-            return tree.subtree_reconfigure_forest(parallel=False, **_kw(op)), None, None
+            return tree.subtree_reconfigure_forest(parallel=op.get("parallel", False), **_kw(op, "parallel")), None, None
         if name == "simulated_anneal":
             return tree.simulated_anneal(**_kw(op)), None, None
         if name == "parallel_temper":
-            return tree.parallel_temper(parallel=False, **_kw(op)), None, None
+            return tree.parallel_temper(parallel=op.get("parallel", False), **_kw(op, "parallel")), None, None
         if name == "remove_ind":
             return tree.remove_ind(op["ind"], project=op.get("project"), inplace=op["inplace"]), None, None
         if name == "restore_ind":
@@ -259,7 +262,7 @@ def apply_op(tree, op, arrays=None):
         if name == "slice_and_reconfigure":
             return tree.slice_and_reconfigure(**_kw(op)), None, None
         if name == "slice_and_reconfigure_forest":
-            return tree.slice_and_reconfigure_forest(parallel=False, **_kw(op)), None, None
+            return tree.slice_and_reconfigure_forest(parallel=op.get("parallel", False), **_kw(op, "parallel")), None, None
         if name == "sort_contraction_indices":
             tree.sort_contraction_indices(**_kw(op))
             return tree, None, None
